@@ -25,6 +25,7 @@ from sdflit import (
     RoundCone,
     Scene,
     SDFObject,
+    Sphere,
 )
 from tqdm import tqdm
 from typing_extensions import deprecated
@@ -147,7 +148,12 @@ class ToImageStack(Transform[Tree, npt.NDArray[np.uint8]]):
 
         def leave(n: Tree.Node, children: list[Tree.Node]) -> Tree.Node:
             for c in children:
-                sdf = RoundCone(_tp3f(n.xyz()), _tp3f(c.xyz()), n.r, c.r).into()
+                if np.array_equal(n.xyz(), c.xyz()):
+                    # a round cone of zero length is a ball; `RoundCone`
+                    # degenerates (nothing is inside it)
+                    sdf = Sphere(_tp3f(n.xyz()), max(n.r, c.r)).into()
+                else:
+                    sdf = RoundCone(_tp3f(n.xyz()), _tp3f(c.xyz()), n.r, c.r).into()
                 scene.add_object(SDFObject(sdf, material).into())
 
             return n
